@@ -19,10 +19,17 @@
   * `ctxs`    — per-context state: `St` of Model/Interp.lean (variables, value saved by `return`,
                 printed output) + the function declarations + the position of the current run.
 
+  r2 (what `Context::clone` copies, member by member: `cloneCtx`; calls and variables are linked by
+  table / slot INDEX: `linked`, `symLinked`, `LWorld`; an executed `function` statement re-installs its
+  function in the running context: `reinstall`; `bloc_break` / `bloc_reset_stop` / trusted / trace:
+  `Op.host`; the fuel bookkeeping is `execList`'s, so that a stepped run IS `runProgram`:
+  Proofs/C14.lean `world_run_eq_runProgram`).
+
   Transcribed from: context.cpp (`Context::clone`: deep copy of every `MemorySlot` — value cloned with
   the LVALUE flag set, symbol copied —, `_fctm->reset(*other._fctm)`; `purge`; the destructor),
   functor_manager.cpp (`reset`: entries re-created without their context cache, the `Functor` itself —
-  name, parameters, body, prototype context — shared through a `shared_ptr`; `createEnv`),
+  name, parameters, body, prototype context — shared through a `shared_ptr`; `createEnv`;
+  `findDeclaration`, `createOrReplace`), expression_functor.cpp (`_id`), statement_function.cpp (`doit`),
   statement.cpp (`execute`: `_level = ctx.execLevel()` on the shared node), executable.cpp (`run`),
   bloc_capi.cpp (`bloc_execute2`, `bloc_error_set`), exception.h (`Error::what`: formats into a
   `static thread_local char buf[256]` since fix 1cb0b5a — one buffer per thread).
@@ -245,6 +252,13 @@ structure Ctx where
   statement format into the same buffer and are read back within the same step: `exec` compares the
   error's own name, see the header.) A clone is a new context: nothing formatted for it yet. -/
   whatBuf : Option (Nat × Bytes) := none
+  /-- `_flags & FLAG_TRUSTED` (`Context::trusted(bool)`: restricted plugins may be imported). The ONLY
+  member besides the storage pool and the declarations that `Context::clone` copies (`other->_flags =
+  _flags`); `Context::purge` leaves it. -/
+  trusted : Bool := false
+  /-- `_trace` (`bloc_ctx_enable_trace`). NOT copied by `Context::clone` (the clone is a `new Context`:
+  `_trace = false`); reset by `Context::purge`. -/
+  trace : Bool := false
   deriving Inhabited
 
 structure World where
@@ -261,7 +275,7 @@ def updShared (s : Shared) (k : SharedKind) (v : CellVal) : Shared :=
 
 def appendLevels (s : Shared) (ws : List (StmtRef × Nat)) : Shared :=
   match s .stmtLevel with
-  | .levels log => updShared s .stmtLevel (.levels (log ++ ws))
+  | .levels log => updShared s .stmtLevel (.levels (ws ++ log))   -- newest first (a set of possible writes; prepending keeps a step O(|ws|))
   | _ => s
 
 /-- `bloc_error_set(re.what(), re.no)`: the ONE process-wide record {message pointer, number}. The
@@ -281,33 +295,226 @@ def declare (fs0 : List Func) (prog : List Stmt) : List Func :=
       addFunc fs { f0 with decls := tab.first }
     | _ => fs) fs0
 
-/-- `Context::clone`: variables (values deep-copied, every one an lvalue) and function declarations;
-no saved return value, no pending stop condition, an own output stream, no run in progress. -/
+/-! ### calls are linked by TABLE INDEX
+
+`FunctorExpression::parse` resolves `f(a, b)` ONCE, while compiling: `findDeclaration(name, #args)` → the
+position of the first entry with that name and arity in the compiling context's table, kept in the node
+(`_id`). At run time `FunctorExpression::value` takes `ctx.functorManager().getDeclaration(_id)` of the
+context that RUNS the node — for a shared executable (`bloc_execute2(clone, exec)`) and for a shared
+function body that is the clone's table, not the one the index was computed in. `exec` of
+Model/Interp.lean looks the callee up by (name, arity) in the running context's table. The two agree
+exactly when the running table continues the compile-time table position by position (`linked`) and
+holds each signature once (`createOrReplace` guarantees that): `index_call_eq_name_call` in
+Proofs/C14.lean. `clone` keeps a table linked because `FunctorManager::reset` copies EVERY entry IN
+ORDER (`clone_copies_functions`); `createOrReplace` keeps it linked because it replaces in place or
+appends (`linked_declare`). A run that is NOT linked calls whatever sits at the index (or reads past the
+end of the vector): the model does not predict it — `LWorld.linkedAll` tells the comparator. -/
+
+/-- what `findDeclaration` compares: name and number of parameters -/
+abbrev Sig := String × Nat
+
+def sigOf (f : Func) : Sig := (f.name, f.params.length)
+
+/-- the signatures of a table, in table order -/
+def sigs (fs : List Func) : List Sig := fs.map sigOf
+
+/-- the table `fs` continues the compile-time table `l` position by position -/
+def linked (l : List Sig) (fs : List Func) : Bool := l.isPrefixOf (sigs fs)
+
+/-- the C++ call: index computed in the compile-time table `l`, entry taken from the running table `fs` -/
+def callByIndex (l : List Sig) (fs : List Func) (name : String) (arity : Nat) : Option Func :=
+  match l.idxOf? (name, arity) with
+  | some i => fs[i]?
+  | none => none
+
+/-- the model's call (`callFunc` of Model/Interp.lean): first entry of the running table with that name and arity -/
+def callByName (fs : List Func) (name : String) (arity : Nat) : Option Func :=
+  fs.find? (fun f => f.name == name && f.params.length == arity)
+
+/-- `FunctorManager::reset` as seeded mutation C14-m3 has it (an entry whose NAME is already in the new
+table is skipped): kept here as the counter-model that shows what `clone_copies_functions` excludes. -/
+def resetSkippingNames (fs : List Func) : List Func :=
+  fs.foldl (fun acc f => if acc.any (·.name == f.name) then acc else acc ++ [f]) []
+
+/-- `Context::clone`, member by member (context.h, private section — everything a `Context` has):
+  * `_storage_pool`  — copied slot by slot (`MemorySlot(const MemorySlot&)`: value cloned with the LVALUE
+                       flag, `new Symbol(*m.symbol)`: name, type, safety and locked flags) → `st.vars`;
+  * `_fctm`          — a NEW manager, then `reset(*_fctm)`: one entry per declaration of the source, IN
+                       ORDER, overloads (same name, other arity) included, sharing the `Functor`, WITHOUT
+                       the cache of call contexts (a recycled call context starts like a new one —
+                       `createEnv` — so the cache is not observable) → `funcs`: the same list;
+  * `_flags`         — copied → `trusted`;
+  * `_root`          — `this`: the clone is its own root; a function body called in it tests the CLONE's
+                       stop condition (`createChildRuntime` re-binds `_root`, fix 137dbae; seeded C14-m4);
+  * `_returnCondition`, `_breakCondition`, `_continueCondition` — false (`new Context`): a pending
+                       top-level `return` / `bloc_break` of the source is NOT inherited → `retPending`;
+  * `_returned`      — null: the value saved by `return` stays with the source → `st.returned`;
+  * `_controlstack`, `_execstack`, `_temporary_storage`, `_backed_symbols`, `_parsing` — empty / false
+                       → `execLevel := 0`, no running `forall` (`st.iters`), no run in progress;
+  * `_recursion`     — 0 (a root context; call contexts get caller + 1 in `createEnv`);
+  * `_trace`         — false, whatever the source has → `trace`;
+  * `_last_error`    — default (read by the `error` built-in only, outside the statement language here);
+  * `_sout`, `_serr` — own `FILE*` on the descriptors given (`clone(fd_out, fd_err)`) or on a `dup` of the
+                       source's (`clone()`): own buffer → `st.out := []`;
+  * `_ts_init`       — now.
+The work budget (`st.budget`) is a model device: a clone starts with a full one. -/
 def cloneCtx (src : Ctx) : Ctx :=
-  { st := { vars := src.st.vars, returned := none, out := [] }, funcs := src.funcs, execLevel := 0 }
+  { st := { vars := src.st.vars, returned := none, out := [] }, funcs := src.funcs, execLevel := 0,
+    trusted := src.trusted, trace := false }
 
 /-- `Context::purge`: variables, declarations, saved value and stop condition are dropped; the context
 object stays usable (for a NEW program: the executables compiled against the old symbols are not). -/
 def purgeCtx (c : Ctx) : Ctx :=
-  { c with st := { c.st with vars := [], returned := none }, funcs := [], running := false, retPending := false }
+  { c with st := { c.st with vars := [], returned := none }, funcs := [], running := false, retPending := false,
+           trace := false }
+
+/-- What a finished statement makes of the run: `Executable::run` goes on after a normal end, stops
+on any stop condition (a top-level `return` leaves the return condition SET — `retPending`), and
+`bloc_execute2` turns a `RuntimeError` into the error record. `lw` = the `_level` writes performed. -/
+def stepOutcome (ctx : Ctx) (lw : List (StmtRef × Nat)) : Res Flow × St → Ctx × List (StmtRef × Nat) × Option (Nat × Bytes)
+  | (.ok .norm, s') => ({ ctx with st := s', pc := ctx.pc + 1 }, lw, none)
+  | (.ok .ret, s') => ({ ctx with st := s', running := false, result := some (.ok s'.returned), retPending := true }, lw, none)
+  | (.ok _, s') => ({ ctx with st := s', running := false, result := some (.ok s'.returned) }, lw, none)
+  | (.err c a, s') => ({ ctx with st := s', running := false, result := some (.err c a), whatBuf := some (c, a) }, lw, some (c, a))
+  | (.haz h, s') => ({ ctx with st := s', running := false, result := some (.haz h) }, lw, none)
+  | (.unmodelled, s') => ({ ctx with st := s', running := false, result := some .unmodelled }, lw, none)
+
+/-- `FUNCTIONStatement::doit`: a function declaration is an EXECUTABLE statement. Compiling it
+(`FUNCTIONStatement::parse` → `createOrReplace`) puts the functor into the table, and every time the
+statement is executed it puts ITS functor back into the entry with that name and arity of the RUNNING
+context's table (`e.functor = _functor; e.clearCache()`), `EXC_RT_INTERNAL_ERROR_S` if there is no such
+entry. So running an old executable in a context that has redefined one of its functions since
+re-installs the old definition — there, and in no other context. (`exec` of Model/Interp.lean treats the
+statement as a no-op, which is right as long as the entry already holds that functor: always, inside
+ONE program that declares each signature once.) The private symbol table of the re-installed function
+(`Func.decls`) is recomputed against the running table, as `declare` does — the compile-time one can
+differ only if a callee's declared return type was changed by a redefinition in between. -/
+def reinstall (fs : List Func) : Stmt → Option (List Func)
+  | .funcS n ps rt b c =>
+    if fs.any (sameSig { name := n, params := ps, ret := rt, body := b, catches := c }) then
+      some (declare fs [.funcS n ps rt b c])
+    else none
+  | _ => some fs
+
+def declName : Stmt → String
+  | .funcS n _ _ _ _ => n
+  | _ => ""
+
+/-! ### when re-executing the declarations of a program changes nothing (checkable)
+
+`wfDecls [] prog`: every declaration of `prog` introduces a NEW signature, and every user-function call
+the symbol pass (`declStmt` … of Model/Interp.lean) looks at in its body and handlers names a signature
+declared so far or the function itself — what the parser enforces (`FunctorExpression::parse`:
+undefined symbol / bad number of arguments otherwise). For such a program executing a declaration
+(`reinstall`) after the compilation puts back exactly the compiled function (Proofs/C14.lean
+`stableDecls_of_wf`), so a stepped run IS `runProgram`. The driver evaluates it for every generated
+program (`wf=`). The predicates mirror the recursion of `typeOfExpr` / `declStmt` … fuel for fuel. -/
+
+mutual
+  /-- every user-function call the typing pass looks at in `e` has a signature accepted by `S` -/
+  def exprOK (S : String → Nat → Bool) : Nat → Expr → Bool
+    | 0, _ => true
+    | fuel + 1, e =>
+      match e with
+      | .lit _ => true
+      | .var _ => true
+      | .un _ a => exprOK S fuel a
+      | .bin _ a b => exprOK S fuel a && exprOK S fuel b
+      | .call _ args => argsOK S fuel args
+      | .member _ recv _ => exprOK S fuel recv
+      | .errorE => true
+      | .item .errorE _ => true
+      | .item (.call "tup" args) _ => argsOK S fuel args
+      | .item _ _ => true
+      | .fcall name args => S name args.length
+  def argsOK (S : String → Nat → Bool) : Nat → List Expr → Bool
+    | _, [] => true
+    | fuel, a :: as => exprOK S fuel a && argsOK S fuel as
+end
+
+
+mutual
+  /-- … the same for everything the symbol pass (`declStmt` …) looks at in a statement -/
+  def stmtOK (S : String → Nat → Bool) : Nat → Stmt → Bool
+    | 0, _ => true
+    | fuel + 1, st =>
+      match st with
+      | .letS _ e => exprOK S 100 e
+      | .forS _ _ _ _ _ body => listOK S fuel body
+      | .forallS _ src _ body => exprOK S 100 src && listOK S fuel body
+      | .whileS _ body => listOK S fuel body
+      | .ifS rules => rulesOK S fuel rules
+      | .beginS body catches => listOK S fuel body && catchesOK S fuel catches
+      | _ => true
+  def listOK (S : String → Nat → Bool) : Nat → List Stmt → Bool
+    | 0, _ => true
+    | _, [] => true
+    | fuel + 1, s :: rest => stmtOK S fuel s && listOK S fuel rest
+  def rulesOK (S : String → Nat → Bool) : Nat → List (Option Expr × List Stmt) → Bool
+    | 0, _ => true
+    | _, [] => true
+    | fuel + 1, (_, body) :: rest => listOK S fuel body && rulesOK S fuel rest
+  def catchesOK (S : String → Nat → Bool) : Nat → List (String × List Stmt) → Bool
+    | 0, _ => true
+    | _, [] => true
+    | fuel + 1, (_, body) :: rest => listOK S fuel body && catchesOK S fuel rest
+end
+
+
+/-- Checkable well-formedness of the declarations of a program, given the signatures `seen` already in the
+table: each declared signature is NEW, and every user-function call the symbol pass looks at in its body
+and handlers names a signature declared so far or the function itself — what the parser enforces anyway
+(`FunctorExpression::parse`: undefined symbol / bad number of arguments otherwise). -/
+def wfDecls (seen : List Sig) : List Stmt → Bool
+  | [] => true
+  | .funcS n ps _ b c :: rest =>
+    !(seen.contains (n, ps.length)) &&
+    listOK (fun name k => (seen ++ [(n, ps.length)]).contains (name, k)) 1000 b &&
+    catchesOK (fun name k => (seen ++ [(n, ps.length)]).contains (name, k)) 1000 c &&
+    wfDecls (seen ++ [(n, ps.length)]) rest
+  | _ :: rest => wfDecls seen rest
+
+
 
 /-- One statement of the run of context `ctx` (`Executable::run` loop body), returning the context
 after it and what it wrote to the shared cells: the `_level` log entries and, when the run ends with
 an error, the error record (the message itself goes to the thread's own `what` buffer, `whatBuf`).
-Reads: the context itself, the shared immutable programs, the fuel. -/
+Reads: the context itself, the shared immutable programs, the fuel.
+
+* A stop condition that arrived while the run was in progress (`bloc_break` from another thread =
+  `returnCondition(true)` on this root) ends the run at the statement boundary: `if
+  (ctx.stopCondition()) break;` — nothing more is executed, the run is a success.
+* Fuel: statement number `pc` runs with `fuel - pc - 1`, and the run is out of fuel when `fuel - pc = 0`
+  — exactly the bookkeeping of `execList` in Model/Interp.lean, so that a run stepped to its end here
+  IS `runProgram` (Proofs/C14.lean `world_run_eq_runProgram`), not merely similar to it.
+* A function declaration re-installs its function in this context's table (`reinstall`). -/
 def stepCtx (progs : List (List Stmt)) (fuel : Nat) (ctx : Ctx) : Ctx × List (StmtRef × Nat) × Option (Nat × Bytes) :=
   if !ctx.running then (ctx, [], none) else
-  match (progs.getD ctx.prog [])[ctx.pc]? with
-  | none => ({ ctx with running := false, result := some (.ok ctx.st.returned) }, [], none)
-  | some stmt =>
-    let lw := stmtLevelWrites ctx.prog ctx.pc ctx.execLevel stmt ++ (ctx.funcs.map funcLevelWrites).flatten
-    match exec ctx.funcs 0 fuel stmt ctx.st with
-    | (.ok .norm, s') => ({ ctx with st := s', pc := ctx.pc + 1 }, lw, none)
-    | (.ok .ret, s') => ({ ctx with st := s', running := false, result := some (.ok s'.returned), retPending := true }, lw, none)
-    | (.ok _, s') => ({ ctx with st := s', running := false, result := some (.ok s'.returned) }, lw, none)
-    | (.err c a, s') => ({ ctx with st := s', running := false, result := some (.err c a), whatBuf := some (c, a) }, lw, some (c, a))
-    | (.haz h, s') => ({ ctx with st := s', running := false, result := some (.haz h) }, lw, none)
-    | (.unmodelled, s') => ({ ctx with st := s', running := false, result := some .unmodelled }, lw, none)
+  if ctx.retPending then ({ ctx with running := false, result := some (.ok ctx.st.returned) }, [], none) else
+  match fuel - ctx.pc with
+  | 0 => stepOutcome ctx [] (.err oofCode [], ctx.st)
+  | f + 1 =>
+    match (progs.getD ctx.prog [])[ctx.pc]? with
+    | none => ({ ctx with running := false, result := some (.ok ctx.st.returned) }, [], none)
+    | some stmt =>
+      match reinstall ctx.funcs stmt with
+      | none => stepOutcome ctx [] (.err Gen.EXC_RT_INTERNAL_ERROR_S (nameBytes (declName stmt)), ctx.st)
+      | some fs' =>
+        stepOutcome { ctx with funcs := fs' }
+          (stmtLevelWrites ctx.prog ctx.pc ctx.execLevel stmt ++ (ctx.funcs.map funcLevelWrites).flatten)
+          (exec ctx.funcs 0 f stmt ctx.st)
+
+/-- What the host can do to a context besides compiling and running: `bloc_break` / `bloc_reset_stop`
+(`returnCondition(true/false)` on the root), `Context::trusted(b)`, `bloc_ctx_enable_trace`. -/
+inductive HostCall
+  | brk | resetStop | trusted (b : Bool) | trace (b : Bool)
+  deriving DecidableEq, Repr
+
+def hostCtx : HostCall → Ctx → Ctx
+  | .brk, c => { c with retPending := true }
+  | .resetStop, c => { c with retPending := false }
+  | .trusted b, c => { c with trusted := b }
+  | .trace b, c => { c with trace := b }
 
 inductive Op
   /-- `Parser::parse` of program `pid` in context `c`: registers its symbols (typed nulls) and its
@@ -320,11 +527,13 @@ inductive Op
   | clone (src dst : CtxId)
   | purge (c : CtxId)
   | free (c : CtxId)
+  /-- a host call on context `c` that is neither compile nor run -/
+  | host (c : CtxId) (h : HostCall)
   deriving DecidableEq, Repr
 
 /-- the context an operation writes (`clone` reads `src`, writes `dst`) -/
 def Op.target : Op → CtxId
-  | .compile c _ | .start c _ | .step c | .purge c | .free c => c
+  | .compile c _ | .start c _ | .step c | .purge c | .free c | .host c _ => c
   | .clone _ dst => dst
 
 def apply (w : World) : Op → World
@@ -365,11 +574,52 @@ def apply (w : World) : Op → World
     | none => w
     | some ctx => { w with ctxs := upd w.ctxs c (some (purgeCtx ctx)) }
   | .free c => { w with ctxs := upd w.ctxs c none }
+  | .host c h =>
+    match w.ctxs c with
+    | none => w
+    | some ctx => { w with ctxs := upd w.ctxs c (some (hostCtx h ctx)) }
 
 /-- the statement step as a relation-free function, as the task names it -/
 def step (w : World) (c : CtxId) : World := apply w (.step c)
 
 def run (w : World) (ops : List Op) : World := ops.foldl apply w
+
+/-! ### which executable was compiled against which table (instrumentation, changes nothing)
+
+An executable is a host object: `compile c pid` creates it against the table `c` has after the
+program's declarations. `LWorld` carries that table's signatures per program and whether every
+`start` so far ran its executable in a context whose table continues it. `applyL` performs `apply` on
+the world (`applyL_world` in Proofs/C14.lean) — the flag only tells where the by-name lookup of the
+model IS the by-index lookup of the code. -/
+
+/-- Variables are linked the same way: `VariableExpression` holds the SLOT INDEX (`_id`) of the symbol in
+the compiling context's storage pool and `loadVariable(_id)` / `storeVariable(_id, …)` index the pool of
+the running context. `St.vars` is in slot order (registration appends, assignment replaces in place,
+`clone` copies the pool slot by slot), so the condition is again "continues position by position". -/
+def symLinked (l : List String) (vars : List (String × Val)) : Bool := l.isPrefixOf (vars.map (·.1))
+
+structure LWorld where
+  w : World
+  /-- compile-time function-table signatures and symbol names (slot order) of each compiled program -/
+  link : Nat → Option (List Sig × List String)
+  /-- every `start` so far was of a compiled executable whose table the running context continues -/
+  linkedAll : Bool
+
+def applyL (lw : LWorld) (op : Op) : LWorld :=
+  let w' := apply lw.w op
+  match op with
+  | .compile c pid =>
+    match w'.ctxs c with
+    | some x => { lw with w := w', link := fun p => if p = pid then some (sigs x.funcs, x.st.vars.map (·.1)) else lw.link p }
+    | none => { lw with w := w' }
+  | .start c pid =>
+    match lw.w.ctxs c, lw.link pid with
+    | some x, some l => { lw with w := w', linkedAll := lw.linkedAll && linked l.1 x.funcs && symLinked l.2 x.st.vars }
+    | some _, none => { lw with w := w', linkedAll := false }
+    | none, _ => { lw with w := w' }
+  | _ => { lw with w := w' }
+
+def runL (lw : LWorld) (ops : List Op) : LWorld := ops.foldl applyL lw
 
 /-- Shared cells of a fresh process: the constant cells of the compiled programs (every one carries
 the LVALUE flag since fix fa51031), nothing logged, no error recorded. -/
@@ -381,6 +631,9 @@ def initShared (consts : List Cell) : Shared
 
 def initWorld (progs : List (List Stmt)) (fuel : Nat := 100000) (consts : List Cell := []) : World :=
   { progs := progs, fuel := fuel, shared := initShared consts, ctxs := fun c => if c = 0 then some {} else none }
+
+def initLWorld (progs : List (List Stmt)) (fuel : Nat := 100000) : LWorld :=
+  { w := initWorld progs fuel, link := fun _ => none, linkedAll := true }
 
 /-- Everything a script or the per-context part of the host API can observe of one context. -/
 def view (w : World) (c : CtxId) : Option Ctx := w.ctxs c
